@@ -867,8 +867,31 @@ def resolve_items(items):
             stats["resolver_items_rejected"] = stats.get("resolver_items_rejected", 0) + 1
             continue
         try:
-            _, fine = MoleculeResolver.from_string(item["multi"], last_all_atom=True).resolve_all()
+            # the driver is part of the input: all at once, stepped by hand, iterated, or the first levels by hand
+            # and the remaining ones from resolve_iter()
+            res = MoleculeResolver.from_string(item["multi"], last_all_atom=True)
+            levels = item["n_levels"]
+            how = H("driver", item["multi"]) % 4
+            if how == 3 and levels < 2:
+                how = 0
+            if how == 0:
+                _, fine = res.resolve_all()
+            elif how == 1:
+                for _ in range(levels):
+                    _, fine = res.resolve()
+            elif how == 2:
+                _, fine = list(res.resolve_iter())[-1]
+            else:
+                done = 1 + H("done", item["multi"]) % (levels - 1)
+                for _ in range(done):
+                    res.resolve()
+                steps = res.resolve_iter()
+                for _ in range(levels - done):
+                    _, fine = next(steps)
+            stats["resolver_driver_%d" % how] = stats.get("resolver_driver_%d" % how, 0) + 1
         except Exception as exc:  # noqa
+            if raised_in_harness(exc):
+                raise
             stats["resolver_items_error"] = stats.get("resolver_items_error", 0) + 1
             continue
         for detail in check_valence(fine, explicit_h=bool(item.get("explicit_h")), stats=stats):
